@@ -74,6 +74,7 @@ class TrackingBackend:
 
     _tracked_jobs: dict = attrs.field(init=False, repr=False)
     _job_states: dict = attrs.field(init=False, repr=False)
+    _unsaved: bool = attrs.field(init=False, default=False, repr=False)
 
     @_tracked_jobs.default
     def _init_tracked(self):
@@ -118,6 +119,7 @@ class TrackingBackend:
         job_id = self.ops.submit_target(target, dependency_ids)
         self._tracked_jobs[target.name] = job_id
         self._job_states[job_id] = BackendStatus.SUBMITTED
+        self._unsaved = True
         # Record the job right away: the state file is only written when gwf
         # exits, and a job the scheduler has accepted must not be forgotten if
         # gwf is killed before that.
@@ -136,11 +138,15 @@ class TrackingBackend:
         try:
             self.ops.close()
         finally:
-            dump_json_atomically(self._tracked_jobs, self._get_state_path())
-            try:
-                os.remove(self._get_journal_path())
-            except FileNotFoundError:
-                pass
+            # A command that submitted nothing has nothing to save. Writing
+            # back what it loaded when it started would wipe out the jobs
+            # that another gwf command has recorded in the meantime.
+            if self._unsaved:
+                dump_json_atomically(self._tracked_jobs, self._get_state_path())
+                try:
+                    os.remove(self._get_journal_path())
+                except FileNotFoundError:
+                    pass
 
     @property
     def target_defaults(self):
